@@ -24,6 +24,8 @@ type Options struct {
 	SimrtPath      string // import path of simrt
 	SimjxPath      string // import path of simjx ("" = do not redirect jx pools)
 	R1, R2, R3, R5 bool
+	// R7 selects the packages in which synchronisation operations become preemption points (nil = none).
+	R7 func(pkgPath string) bool
 }
 
 // Site describes one instrumented site.
@@ -225,6 +227,9 @@ func (r *fileRewriter) run() {
 			}
 		case *ast.CallExpr:
 			r.call(x)
+			if r.o.R7 != nil && r.o.R7(r.p.PkgPath) {
+				r.syncOp(x, stack)
+			}
 		case *ast.SelectorExpr:
 			if r.o.R3 {
 				// the type sync.Pool
@@ -384,6 +389,125 @@ func (r *fileRewriter) call(call *ast.CallExpr) {
 				r.use(r.o.SimrtPath)
 				r.add(id, "R5writer", "template output")
 			}
+		}
+	}
+}
+
+// syncOp is R7: a synchronisation operation (sync/atomic functions and methods, sync.Map methods, acquiring a
+// sync.Mutex/RWMutex) is a point where the Go scheduler may preempt the goroutine, and the only kind of point at which
+// a preemption can change what lock-free or finely locked code computes. The operand the operation works on is passed
+// through simrt.At, which may yield first. Yields are suppressed while the goroutine holds a lock taken at a rewritten
+// site (simrt.Held), because a goroutine waiting for a sync.Mutex is not durably blocked and the bubble would stall.
+func (r *fileRewriter) syncOp(call *ast.CallExpr, stack []ast.Node) {
+	info := r.p.TypesInfo
+	at := func(x ast.Expr, addr bool, id string) {
+		pre := "simrt.At(" + strconv.Quote(id) + ", "
+		if addr {
+			pre += "&("
+		}
+		post := ")"
+		if addr {
+			post = "))"
+		}
+		r.fe.Add(r.file, r.off(x.Pos()), r.off(x.Pos()), pre)
+		r.fe.Add(r.file, r.off(x.End()), r.off(x.End()), post)
+		r.use(r.o.SimrtPath)
+	}
+	// statement context: the call is an expression statement (or the call of a defer) directly in a statement list
+	var stmt ast.Stmt
+	inList := false
+	if n := len(stack); n >= 3 {
+		switch p := stack[n-2].(type) {
+		case *ast.ExprStmt:
+			stmt = p
+		case *ast.DeferStmt:
+			stmt = p
+		}
+		if stmt != nil {
+			switch stack[n-3].(type) {
+			case *ast.BlockStmt, *ast.CaseClause, *ast.CommClause:
+				inList = true
+			}
+		}
+	}
+	if pkg, name := r.pkgFunc(call); pkg == "sync/atomic" && len(call.Args) >= 1 {
+		if _, isFunc := info.Uses[call.Fun.(*ast.SelectorExpr).Sel].(*types.Func); isFunc {
+			id := r.site(call.Pos(), "R7")
+			at(call.Args[0], false, id)
+			r.add(id, "R7", "atomic."+name)
+		}
+		return
+	}
+	se, ok := call.Fun.(*ast.SelectorExpr)
+	if !ok {
+		return
+	}
+	sel, ok := info.Selections[se]
+	if !ok || sel.Kind() != types.MethodVal {
+		return
+	}
+	fn, ok := sel.Obj().(*types.Func)
+	if !ok || fn.Pkg() == nil {
+		return
+	}
+	sig, _ := fn.Type().(*types.Signature)
+	if sig == nil || sig.Recv() == nil {
+		return
+	}
+	rt := sig.Recv().Type()
+	ptrRecv := false
+	if p, ok := rt.(*types.Pointer); ok {
+		rt, ptrRecv = p.Elem(), true
+	}
+	nt, ok := rt.(*types.Named)
+	if !ok {
+		return
+	}
+	tname := nt.Obj().Name()
+	_, xIsPtr := info.TypeOf(se.X).Underlying().(*types.Pointer)
+	addr := ptrRecv && !xIsPtr
+	id := r.site(call.Pos(), "R7")
+	switch fn.Pkg().Path() {
+	case "sync/atomic":
+		at(se.X, addr, id)
+		r.add(id, "R7", "atomic."+tname+"."+fn.Name())
+	case "sync":
+		switch {
+		case tname == "Map":
+			at(se.X, addr, id)
+			r.add(id, "R7", "sync.Map."+fn.Name())
+		case (tname == "Mutex" || tname == "RWMutex") && (fn.Name() == "Lock" || fn.Name() == "RLock"):
+			if _, isExpr := stmt.(*ast.ExprStmt); !isExpr || !inList {
+				r.skip(id, "R7", "lock taken outside a plain statement: not tracked")
+				return
+			}
+			at(se.X, addr, id)
+			r.fe.Add(r.file, r.off(stmt.End()), r.off(stmt.End()), "; simrt.Held(1)")
+			r.add(id, "R7", "sync."+tname+"."+fn.Name())
+		case (tname == "Mutex" || tname == "RWMutex") && (fn.Name() == "Unlock" || fn.Name() == "RUnlock"):
+			if !inList {
+				r.skip(id, "R7", "unlock outside a plain statement: the goroutine counts as holding the lock from here on")
+				return
+			}
+			if _, isDefer := stmt.(*ast.DeferStmt); isDefer {
+				r.fe.Add(r.file, r.off(stmt.Pos()), r.off(stmt.Pos()), "defer simrt.Held(-1); ")
+			} else {
+				r.fe.Add(r.file, r.off(stmt.End()), r.off(stmt.End()), "; simrt.Held(-1)")
+			}
+			r.use(r.o.SimrtPath)
+			r.add(id, "R7", "sync."+tname+"."+fn.Name())
+		case (tname == "Mutex" || tname == "RWMutex") && (fn.Name() == "TryLock" || fn.Name() == "TryRLock"):
+			r.skip(id, "R7", "TryLock: not tracked")
+		case tname == "Once" && fn.Name() == "Do":
+			// the function runs with the Once's lock held: no yields inside it
+			if _, isExpr := stmt.(*ast.ExprStmt); !isExpr || !inList {
+				r.skip(id, "R7", "Once.Do outside a plain statement: not tracked")
+				return
+			}
+			r.fe.Add(r.file, r.off(stmt.Pos()), r.off(stmt.Pos()), "simrt.Held(1); ")
+			r.fe.Add(r.file, r.off(stmt.End()), r.off(stmt.End()), "; simrt.Held(-1)")
+			r.use(r.o.SimrtPath)
+			r.add(id, "R7", "sync.Once.Do")
 		}
 	}
 }
